@@ -17,6 +17,9 @@ TITLE = {"feature", "rule", "background", "scenario", "scenarioOutline", "exampl
 
 _T = linespec.master_table()
 KEYWORDS = []
+if param("steps_only", False):
+    CATS = ["given", "when", "then", "and", "but"]
+    ROLES = ["StepLine"]
 for _c in CATS:
     for _k in _T[D][_c]:
         if (_c, _k) not in KEYWORDS:
